@@ -36,6 +36,7 @@ def pipe_rule(repo, res, rule="PIPE"):
             res.bad(rule, f"{rule}:main::aot:{mod}:arity", f"{len(c['args'])} arguments", f"{fn.file}:{c['l']}")
             continue
         cmd = A.show(A.resolve(c["args"][1], envs.get(id(c))))
+        cmd = re.sub(r"(\.(as_str|as_ref|borrow|deref)\(\))+$", "", cmd)  # the same string handed on as &str
         dfa = A.show(A.resolve(c["args"][2], envs.get(id(c))))
         m = re.fullmatch(r"(Ok\.0<-ValidGrammar::from_grammar\(Ok\.0<-Grammar::parse\((.*?)\), (.*)\))\.command", cmd)
         res.check(bool(m), rule, f"{rule}:main::aot:{mod}:command-name", f"command <= {cmd[:140]}" + ("" if m else ": must be the `command` of ValidGrammar::from_grammar(Grammar::parse(input), shell)"), f"{fn.file}:{c['l']}")
@@ -61,10 +62,18 @@ def pipe_rule(repo, res, rule="PIPE"):
         sc = mt["scrut"]
         if sc["k"] == "Tuple" and len(sc["elems"]) == 4:
             fields = []
+            envs_m = envs
             for e in sc["elems"]:
                 while e["k"] in ("Ref", "Unary"):
                     e = e["expr"]
-                fields.append(e["member"] if e["k"] == "Field" else "?")
+                if e["k"] == "Field":
+                    fields.append(e["member"])
+                else:
+                    # a local bound from the options struct (`let Cli { bash: bash_path, .. } = args`, `let b = &args.bash`)
+                    q = A.resolve(e, envs_m.get(id(e)) or envs_m.get(id(mt)))
+                    while q[0] in ("ref", "deref") or (q[0] == "mcall" and q[1] in ("as_ref", "as_deref", "clone")):
+                        q = q[1] if q[0] != "mcall" else q[2]
+                    fields.append(q[2] if q[0] in ("field", "bind") else "?")
             for a in mt["arms"]:
                 p = a["pat"]
                 if p["k"] == "PTuple" and len(p["elems"]) == 4:
